@@ -452,6 +452,17 @@ def sup_numbers(ob):
     else:
         for lv, d in enumerate(q['virt']):
             out += enc_dict(cs, lv + 1, d)
+    fs = ob['numdofs']
+    if isinstance(q['kids'], str):
+        out += [999999]
+    else:
+        for l, e in enumerate(q['kids']):
+            if e is None:
+                continue
+            if l + 1 < L:
+                out += enc(fs[l + 1], e['children']) + enc(fs[L - 1], e['grandchildren'])
+            if l >= 1:
+                out += enc(fs[l - 1], e['parents']) + enc(fs[0], e['grandparents'])
     return out
 
 
@@ -469,6 +480,26 @@ def check_support_queries(cfg, ob):
             return ('support-query-raises', '%s raised %s' % ({'all': 'compute_supports(active functions)', 'funcs_res': 'compute_supports',
                                                                'cells_res': 'hmesh_cells', 'virt': 'compute_virtual_supports'}[name], q[name]))
     g = Geo(cfg, L)
+    if isinstance(q['kids'], str):
+        return ('function-children-raises', 'function_children/parents raised ' + q['kids'])
+    for l, e in enumerate(q['kids']):
+        if e is None:
+            continue
+        pblocks = [g.func_block(l, f) for f in q['funcs'][l]]
+
+        def inside(b, bs):
+            return any(all(lo2 <= lo1 and hi1 <= hi2 for (lo1, hi1), (lo2, hi2) in zip(b, pb)) for pb in bs)
+        for name, lt in (('children', l + 1), ('grandchildren', L - 1)):
+            for ch in e.get(name, []):
+                if not inside(g.func_block(lt, ch), pblocks):
+                    return ('children-outside-parent', 'function_%s(%d, %s) contains %s whose support is not inside the support of a parent' % (name, l, q['funcs'][l], ch))
+        if 'children' in e and not e['children']:
+            return ('no-children', 'function_children(%d, %s) is empty' % (l, q['funcs'][l]))
+        for name, lt in (('parents', l - 1), ('grandparents', 0)):
+            for pa in e.get(name, []):
+                pb = g.func_block(lt, pa)
+                if not any(all(lo2 <= lo1 and hi1 <= hi2 for (lo1, hi1), (lo2, hi2) in zip(b, pb)) for b in pblocks):
+                    return ('parent-not-containing', 'function_%s(%d, %s) contains %s whose support does not contain the support of the function' % (name, l, q['funcs'][l], pa))
 
     def expected(blocks, active_per_level):
         out = []
